@@ -2,7 +2,7 @@
 import os, sys, json, time, hashlib, random, subprocess, re, collections
 from common import VERIF, LEAN_DIR, run_driver
 
-EVID_DIR = os.path.join(VERIF, "evidence")
+EVID_DIR = os.environ.get("VERIF_EVIDENCE_DIR") or os.path.join(VERIF, "evidence")      # (the override is for runs against a deliberately modified tree)
 REPLAY_DIR = os.path.join(VERIF, "replays")
 KNOWN_PATH = os.path.join(VERIF, "known_findings.json")
 
